@@ -150,7 +150,7 @@ class Built:
         elif k == 'map_to_index':
             node.map_attribute_to_index(*e[1:])
         elif k == 'index_to_map':
-            node.index_attribute_to_map(*e[1:])
+            node.index_attribute_to_map(e[1], e[2], e[3] or None)
         else:
             raise ValueError('effect %r' % (e,))
 
